@@ -24,7 +24,7 @@ WITH=$(verd)
 [ "$BASE" == "$WITH" ] && echo "existing_tests_same_verdicts=yes ($(echo $BASE | wc -w) tests)" || { echo existing_tests_same_verdicts=NO; echo "$BASE"; echo "$WITH"; }
 cp "$SD/demo_test.go" "$PKG"/zz_seed_demo_test.go
 HELPERS=""
-for h in "$SD"/helper_*.go; do [ -f "$h" ] || continue; d=$(head -20 "$h" | grep -o 'src/[a-zA-Z0-9_/]*' | head -1); [ -z "$d" ] && d="src/consensus/logical/group_create"; cp "$h" "$d/zz_seed_helper.go"; HELPERS="$HELPERS $d/zz_seed_helper.go"; done
+for h in "$SD"/helper_*.go; do [ -f "$h" ] || continue; d="${HELPER_DIR:-src/consensus/logical/group_create}"; cp "$h" "$d/zz_seed_helper.go"; HELPERS="$HELPERS $d/zz_seed_helper.go"; done
 timeout 900 go test -vet=off -count=1 -run "$RX" ./"$PKG"/ >/tmp/seed_demo_with.log 2>&1 && echo "demo_with_patch=PASS(unexpected)" || echo "demo_with_patch=fail(expected)"
 git apply -R "$SD/patch.diff"
 timeout 900 go test -vet=off -count=1 -run "$RX" ./"$PKG"/ >/tmp/seed_demo_without.log 2>&1 && echo "demo_without_patch=pass(expected)" || echo "demo_without_patch=FAIL(unexpected)"
